@@ -29,6 +29,7 @@ def check(ctx):
     ctx.rule("R1", "token text is emitted verbatim: _render_token returns only tok.string, a source slice, the documented brace re-escape or the comment lstrip", floor=4)
     ctx.rule("R2", "no content-changing string operation is applied to the joined text in regions that can lie inside a token", floor=1)
     ctx.rule("R4", "between two words of a subprocess command the formatter neither creates nor removes a gap: every constant spacing decision is taken outside subprocess context, or agrees with the gap in the source (a gap separates two arguments, no gap joins them: `host:/path`, `a,b`, `if=/dev/zero`)", floor=8)
+    ctx.rule("R5", "the formatter's text is decoded once: bytes it encodes itself are tokenized with that very encoding, not with one re-detected from a coding cookie inside the text", floor=1)
     ctx.rule("R3", "a file is rewritten only after format_source returned normally and changed the text; tokenizer errors become FormatError and are reported without writing", floor=5)
 
     co = ctx.repo.module(CO)
@@ -189,7 +190,16 @@ def check(ctx):
         wstmt = stmt_of(w)
         wr = [c for c in calls_in(wstmt, local=False) if last_attr(c) == "write"] if isinstance(wstmt, ast.With) else []
         ok = bool(wr) and all(unparse(c.args[0]) in FORMATTED for c in wr)
-        ctx.ob("R3", f"{CL}:_process_one", "exactly the formatter's output is written", ok, key="process_one|written-value", where=loc(w))
+        # ... and nothing touches it on the way: every definition of the written name is the formatter call itself
+        touched = [d for c in wr if isinstance(c.args[0], ast.Name) for d in pdefs.get(c.args[0].id, []) if not (d.value is not None and isinstance(d.value, ast.Call) and call_name(d.value) == "format_source")]
+        ctx.ob("R3", f"{CL}:_process_one", "exactly the formatter's output is written", ok and not touched, key="process_one|written-value", where=loc(touched[0].stmt) if touched else loc(w), detail=f"`{short(touched[0].stmt, 70)}` rewrites the output after the formatter returned (a text-level edit cannot tell a line end from a line break inside a token)" if touched else None)
+    # the text handed to the formatter is read with universal newlines (the engine's rows end in \n; a \r\n that reaches it
+    # inside a multi-line token is token text)
+    pof = flat(ctx, po, 1)
+    for c in [c for c in calls_in(pof) if call_name(c) == "open" and not is_write_mode(open_mode(c) or "r") and not getattr(stmt_of(c), "_xv_call_marker", False)]:
+        nl = kwarg(c, "newline")
+        ok = nl is None or (isinstance(nl, ast.Constant) and nl.value is None)
+        ctx.ob("R3", f"{CL}:_process_one", f"`{short(c, 60)}` reads the source with newline translation", ok, key="process_one|read-without-newline-translation", where=loc(c))
     mn = cl.func("main")
     calls = [c for c in calls_in(mn) if call_name(c) == "_process_one"]
     from .c19 import _enclosing_try_with_handler
@@ -198,6 +208,18 @@ def check(ctx):
     ctx.ob("R3", f"{CL}:main", "a FormatError from one file is reported and counted, never propagated into a write", ok, key="main|format-error-handler")
 
     _spacing(ctx, co)
+    # ---- R5: encode(E) ... tokenize(bytes) re-detects the encoding from a PEP 263 cookie; the text was decoded already
+    it = co.func("_Formatter._iter_tokens")
+    encs = [c for c in calls_in(it) if last_attr(c) == "encode"]
+    if not encs:
+        ctx.ob("R5", f"{CO}:_Formatter._iter_tokens", "the text is tokenized as text (no encode / re-decode round trip)", True, key="iter_tokens|no-encode")
+    for c in encs:
+        enc = const_value(c.args[0], None) if c.args else "utf-8"
+        toks = [t for t in calls_in(it) if (call_name(t) or "").split(".")[-1] in ("tokenize", "_tokenize", "generate_tokens")]
+        # the cookie-sensitive entry point is `tokenize(readline, ...)`: it calls detect_encoding(); `_tokenize(readline, ENC, ...)`
+        # takes the encoding from its caller
+        ok = bool(toks) and all((call_name(t) or "").split(".")[-1] == "_tokenize" and len(t.args) >= 2 and const_value(t.args[1], None) == enc for t in toks)
+        ctx.ob("R5", f"{CO}:_Formatter._iter_tokens", f"bytes produced by `{short(c, 40)}` are decoded by the tokenizer as {enc!r} (not as whatever a coding cookie in the text says)", ok, key="iter_tokens|encoding-redetected-from-cookie", where=loc(c), detail=None if ok else f"tokenizer entry: {[short(t, 50) for t in toks]}")
 
 
 CAPTURE_OPENERS = {"$(", "$[", "!(", "![", "@$("}
@@ -342,4 +364,5 @@ META = {
     "per file; between two words of a subprocess command every constant gap _space_between can return is decided outside subprocess context or agrees with the gap in the source (a gap is the argument boundary). Tree equality and idempotence for all programs are not decided.",
     "note": "Decides the listed structural clauses, not the behaviour. Python-mode spacing (which operators get spaces) "
     "and the line classifier (_is_subproc_statement: a heuristic over token shapes) are value-level and outside this analysis.",
+    "more": 'The CLI writes exactly what the formatter returned (no edit in between) and reads with newline translation; the formatter tokenizes its own UTF-8 bytes as UTF-8, never with an encoding re-detected from a coding cookie.',
 }
